@@ -74,6 +74,7 @@ class Repo:
         self.stubs: dict[str, ModuleInfo] = {}
         self.classes: dict[str, ClassInfo] = {}
         self.header_source: str | None = None
+        self.cache: dict = {}  # per-repository memo for rule helpers (never keyed by id(): variants get fresh objects)
         self._load()
 
     # -- loading -------------------------------------------------------------
